@@ -943,21 +943,43 @@ func c18Unmarshal(e *Env) {
 func c18Main(e *Env) {
 	r := e.R
 	key := "main.buildVersion"
+	// the function that post-processes the version info: a literal inside buildVersion or a named function
+	// buildVersion passes on — found by what it does (it writes GitVersion) and by being used by buildVersion
 	var fn *ssa.Function
-	for _, f := range e.P.Funcs() {
-		if f.Parent() != nil && e.P.FuncKey(f.Parent()) == "..buildVersion" || strings.HasPrefix(e.P.FuncKey(f), "..buildVersion$") {
-			fn = f
-		}
-	}
-	if fn == nil {
-		for _, f := range e.P.Funcs() {
-			if strings.Contains(f.String(), "buildVersion$") {
-				fn = f
+	bv := e.P.Func(".", "buildVersion")
+	writesGitVersion := func(f *ssa.Function) bool {
+		for _, b := range f.Blocks {
+			for _, ins := range b.Instrs {
+				if st, ok := ins.(*ssa.Store); ok {
+					if fa, ok := st.Addr.(*ssa.FieldAddr); ok && fieldName(fa) == "GitVersion" {
+						return true
+					}
+				}
 			}
 		}
+		return false
+	}
+	if bv != nil {
+		for _, a := range bv.AnonFuncs {
+			if writesGitVersion(a) {
+				fn = a
+			}
+		}
+		if fn == nil {
+			allInstrs(bv, func(_ *ssa.Function, ins ssa.Instruction) {
+				for _, op := range ins.Operands(nil) {
+					if op == nil || *op == nil {
+						continue
+					}
+					if f, ok := (*op).(*ssa.Function); ok && f.Pkg == bv.Pkg && writesGitVersion(f) {
+						fn = f
+					}
+				}
+			})
+		}
 	}
 	if fn == nil {
-		r.Undecide("R18.5", key, "closure of buildVersion not found")
+		r.Undecide("R18.5", key, "the function that sets the build version (used by buildVersion) was not found")
 		return
 	}
 	// every store of TrimPrefix(GitVersion, "v") into GitVersion is behind HasPrefix ∧ IsValid
@@ -1048,28 +1070,8 @@ func c18Chain(e *Env) {
 	}
 	r.Check(ok2, "R18.5", "internal/cmd.NewBuildCmd$RunE#payload-version", "runnerPayload.version is NewBuildCmd's version parameter")
 	ok3 := false
-	if fn := e.P.Func("internal/cmd", "buildRunner"); fn != nil {
-		for _, c := range callsIn(fn, false) {
-			if strings.HasSuffix(callName(c.Common()), ".OverrideParam") || strings.HasSuffix(callName(c.Common()), ").OverrideParam") {
-				if s, ok := constString(c.Common().Args[len(c.Common().Args)-2]); ok && s == "version" {
-					if dv, ok := c.Common().Args[len(c.Common().Args)-1].(*ssa.Call); ok && strings.HasSuffix(callName(&dv.Call), "container.NewDependencyValue") {
-						if mi, ok := dv.Call.Args[0].(*ssa.MakeInterface); ok {
-							v := mi.X
-							if ld, ok := v.(*ssa.UnOp); ok {
-								if fa, ok := ld.X.(*ssa.FieldAddr); ok && fieldName(fa) == "version" {
-									ok3 = true
-								}
-							}
-							if f, ok := v.(*ssa.Field); ok {
-								if s, ok := f.X.Type().Underlying().(*types.Struct); ok && load.Current.BaselineField(f.X.Type(), s.Field(f.Field).Name()) == "version" {
-									ok3 = true
-								}
-							}
-						}
-					}
-				}
-			}
-		}
+	if ov := buildRunnerOverrides(e); ov != nil {
+		ok3 = ov.params["version"] == "version"
 	}
 	r.Check(ok3, "R18.5", "internal/cmd.buildRunner#param-version", "the container parameter \"version\" is overridden with payload.version")
 }
